@@ -94,7 +94,7 @@ pub fn run(ctx: &mut Ctx) {
     let max_n = if thorough { 5 } else { 4 };
     for n in 1..=max_n {
         let dags = all_dags(n);
-        let subsets: Vec<u32> = if n <= 3 { (0..(1u32 << n)).collect() } else { vec![0b0001, 0b0110, 0b1010, (1 << n) - 1, 1 << (n - 1)] };
+        let subsets: Vec<u32> = if n <= 3 || (thorough && n <= 4) { (0..(1u32 << n)).collect() } else { vec![0b0001, 0b0110, 0b1010, (1 << n) - 1, 1 << (n - 1)] };
         ctx.space(&format!("builder/D{n}"), &format!("{} labelled DAGs x {} annotated subsets; terms: all n! orders (n<=4) else within 2 transpositions+rotations; links: all e! (e<=4) else within 2 transpositions; annotation facts: all k! (k<=5) else within 2 transpositions+rotations; joint permutations when n,e,k <= 3", dags.len(), subsets.len()));
         for d in &dags {
             for &s in &subsets {
@@ -228,6 +228,9 @@ pub fn run(ctx: &mut Ctx) {
                                 }
                             }
                         } else {
+                            for p in permutations(secs.terms.len()).into_iter().skip(1) {
+                                variants.push((Sections { terms: apply_perm(&secs.terms, &p), ..secs.clone() }, format!("term records {p:?}")));
+                            }
                             let mut x = secs.clone();
                             x.terms.reverse();
                             x.parents.reverse();
